@@ -7,7 +7,7 @@
 From Coq Require Import List String ZArith NArith Bool.
 Import ListNotations.
 From DV Require Import Model.Decision Gen.GoastImportsSrc Proofs.GoastStepProofs.
-From DV Require Import Proofs.StripVendorProofs.
+From DV Require Import Proofs.StripVendorProofs Model.StripProg Gen.StripVendorSrc Proofs.StripVendorSrcProofs.
 From DV Require Import Model.Resolvers Proofs.ResolverProofs Proofs.ResolverAgree Gen.ResolverSrc
   Model.Decision Model.DecisionInterp Gen.DecisionSrc Proofs.DecisionProofs.
 Local Open Scope string_scope.
@@ -188,6 +188,14 @@ Example C09_strip_vendor_laws_are_not_vacuous :
   strip_vendor "vendorx/y" = "vendorx/y" /\ strip_vendor "x/vendor" = "x/vendor".
 Proof. exact strip_vendor_laws_nonvacuous. Qed.
 
+(* stripVendor as decorator.go writes it on this run (Gen/StripVendorSrc.v: the cases of the closure
+   findVendor over strings.Contains / strings.LastIndex / strings.HasPrefix and the final slice
+   expression, rendered by the translator) computes the model for EVERY path, and its slice
+   expression is never out of range (Some: no run-time panic) *)
+Theorem C09_stripVendor_source_computes_the_model : forall path,
+  run_sv strip_vendor_src path = Some (strip_vendor path).
+Proof. exact strip_vendor_source_is_model. Qed.
+
 Print Assumptions C09_translated_sources_are_within_the_vocabulary.
 Print Assumptions C09_gotypes_source_computes_the_model.
 Print Assumptions C09_goast_source_computes_the_model.
@@ -209,3 +217,4 @@ Print Assumptions C09_strip_vendor_is_idempotent.
 Print Assumptions C09_strip_vendor_removes_only_a_prefix.
 Print Assumptions C09_strip_vendor_keeps_unvendored_paths.
 Print Assumptions C09_strip_vendor_last_vendor_directory_decides.
+Print Assumptions C09_stripVendor_source_computes_the_model.
